@@ -114,6 +114,8 @@ impl QueryEngine {
         let _guard = self.metrics_table_query_lock.lock().await;
         self.register_metrics_table_for_chunks_locked(chunk_paths)
             .await?;
+        #[cfg(cardinalsin_verif)]
+        crate::verif_hooks::pause("query.after_register").await;
         Ok(self.ctx.sql(sql).await?)
     }
 
